@@ -188,3 +188,59 @@ def obligations_lifecycle(ctx):
                              + ("" if same else " (differs from the committed snapshot coqgen/Lifecycle_Gen.v)")}
     finally:
         shutil.rmtree(d, ignore_errors=True)
+
+
+def _obligations_gen(tool_name, stem, what, source):
+    """generic: re-translate with tools/<tool_name>, compile coqgen/<stem>_Gen.v afresh and re-check coqgen/<stem>_Gen_Proofs.v"""
+    repo = os.environ.get("VERIF_REPO", "/repo")
+    tool = os.path.join(coqrun.VERIF, "tools", tool_name)
+    d = os.path.join(coqrun.BUILD, stem.lower(), f"gen.{os.getpid()}")
+    shutil.rmtree(d, ignore_errors=True)
+    os.makedirs(d)
+    gen, prf = f"{stem}_Gen.v", f"{stem}_Gen_Proofs.v"
+    try:
+        r = subprocess.run([sys.executable, tool, repo, os.path.join(d, gen)], capture_output=True, text=True, timeout=120)
+        if r.returncode != 0:
+            yield {"name": tool_name, "ok": None,
+                   "detail": "translation not applicable: " + (r.stderr.strip() or r.stdout.strip())[-300:]}
+            return
+        shutil.copy(os.path.join(coqrun.VERIF, "coqgen", prf), d)
+        text = open(os.path.join(d, prf)).read()
+        hits = [l.strip() for l in text.splitlines()
+                if re.search(r"\b(Admitted|admit|Axiom|Parameter|Conjecture|Abort)\b|Unset Guard|bypass_check|native_compute", l)
+                and not l.strip().startswith("(*")]
+        if hits:
+            yield {"name": prf, "ok": False, "detail": f"forbidden constructs: {hits[:3]}"}
+            return
+        args = ["coqc", "-Q", coqrun.COQ, "MV", "-Q", ".", "MVG"]
+        r = subprocess.run(args + [gen], cwd=d, capture_output=True, text=True, timeout=300)
+        if r.returncode != 0:
+            yield {"name": tool_name, "ok": None,
+                   "detail": "translation not applicable: the generated Gallina does not type-check: " + (r.stdout + r.stderr)[-300:]}
+            return
+        r = subprocess.run(args + [prf], cwd=d, capture_output=True, text=True, timeout=600)
+        out = r.stdout + r.stderr
+        if r.returncode != 0:
+            yield {"name": f"{stem}_Gen_Proofs ({what})", "ok": False,
+                   "detail": "the equivalence proof no longer checks against the re-translated source: " + out[-500:]}
+            return
+        names = re.findall(r"^Print Assumptions (\w+)\.", text, re.M)
+        closed = out.count("Closed under the global context")
+        if closed != len(names):
+            yield {"name": prf, "ok": False, "detail": f"{len(names) - closed} of {len(names)} theorems depend on axioms: " + out[-400:]}
+            return
+        same = open(os.path.join(d, gen)).read() == open(os.path.join(coqrun.VERIF, "coqgen", gen)).read()
+        for n in names:
+            yield {"name": f"MVG.{stem}_Gen_Proofs." + n, "ok": True,
+                   "detail": f"closed under the global context; checked against the translation of {source} in {repo}"
+                             + ("" if same else f" (differs from the committed snapshot coqgen/{gen})")}
+    finally:
+        shutil.rmtree(d, ignore_errors=True)
+
+
+def obligations_ensemble(ctx):
+    """ensemble.py's update / reset / set_reference re-translated (tools/py2coq_ensemble.py) and re-proved equal to the generic
+    ensemble model coq/Ensemble.v for every member machine and every election."""
+    yield from _obligations_gen("py2coq_ensemble.py", "Ensemble",
+                                "translation of the current ensemble.py = Ensemble.v, every state, input, member machine and election",
+                                "menelaus/ensemble/ensemble.py")
